@@ -5,6 +5,7 @@ pub mod common;
 pub mod qgen;
 pub mod ugen;
 pub mod c01;
+pub mod c02;
 pub mod c03;
 pub mod c04;
 pub mod c09;
@@ -14,7 +15,7 @@ pub mod c16;
 pub mod c17;
 
 pub fn all() -> &'static [PropDef] {
-    static ALL: &[PropDef] = &[c01::DEF, c03::DEF, c04::DEF, c09::DEF, c12::DEF, c15::DEF, c16::DEF, c17::DEF];
+    static ALL: &[PropDef] = &[c01::DEF, c02::DEF, c03::DEF, c04::DEF, c09::DEF, c12::DEF, c15::DEF, c16::DEF, c17::DEF];
     ALL
 }
 
